@@ -254,7 +254,15 @@ class AppQueue:
 
 
 _fakequeue_ecu = _Fallback(_real_queue, Queue=WakeQueue, SimpleQueue=WakeQueue, Empty=FakeEmpty)
-_fakethreading = _Fallback(_real_threading, Thread=FakeThread)
+CUR_THREAD = [None]        # the FakeThread whose target is running (a job thread's pass), None = some other thread
+
+
+def _current_thread():
+    return CUR_THREAD[0] if CUR_THREAD[0] is not None else _real_threading.current_thread()
+
+
+_fakethreading = _Fallback(_real_threading, Thread=FakeThread, current_thread=_current_thread, currentThread=_current_thread,
+                           get_ident=lambda: id(_current_thread()))
 _appqueue = _Fallback(_real_queue, Queue=AppQueue, SimpleQueue=AppQueue, Empty=FakeEmpty)
 
 
@@ -514,6 +522,8 @@ class Sim:
             return
         self.depth += 1
         self.clock_calls = 0
+        prev_thread = CUR_THREAD[0]
+        CUR_THREAD[0] = getattr(n.ecu, "_job_thread", None)       # threading.current_thread() inside the pass
         try:
             n.ecu._async_job_thread()
             # returned normally: the stop event was set
@@ -527,6 +537,7 @@ class Sim:
             self.log({"ev": "jobdead", "node": n.name, "exc": type(e).__name__, "msg": str(e)})
         finally:
             self.depth -= 1
+            CUR_THREAD[0] = prev_thread
         self.touch(n)
 
     # ------------------------------------------------------------ scheduler
